@@ -69,6 +69,23 @@ def _body_rows(rep, case, sub="rows"):
             one(rep, sub, calc, s, e, case.get("ctx"))
 
 
+def body_objects(rep, case):
+    """SwitcherSchedule objects report the duration of *their* times, also when the slot id was seen before with others."""
+    from aioswitcher.schedule.parser import SwitcherSchedule
+    sid = str(case["slot"])
+    for (s_, e_) in case["pairs"]:
+        rep.tick("schedule-objects", key=(sid, s_, e_), nontrivial=e_ <= s_, sample={"slot": sid, "start": hhmm(s_), "end": hhmm(e_)})
+        obj = SwitcherSchedule(sid, False, set(), hhmm(s_), hhmm(e_))
+        if obj.duration != expected(s_, e_):
+            raise Violation("C14/schedule-object-duration/slot-id-seen-before", case, expected(s_, e_), obj.duration)
+
+
+def strat_objects():
+    pair = st.tuples(st.integers(0, 1439), st.integers(0, 1439))
+    return st.builds(lambda slot, pairs: {"slot": slot, "pairs": [list(p) for p in pairs]}, st.integers(0, 7),
+                     st.lists(pair, min_size=2, max_size=6))
+
+
 def strat_pairs():
     return st.tuples(st.integers(0, 1439), st.integers(0, 1439), st.sampled_from(CONTEXTS)).map(
         lambda t: dict({"start": t[0], "end": t[1]}, **({"ctx": t[2]} if t[2] else {})))
@@ -80,6 +97,7 @@ def subchecks(tier):
     zcases = lambda: [{"lo": a, "hi": a + 60, "full": False, "ctx": c} for c in CONTEXTS[1:] for a in range(0, 1440, 60)]  # noqa
     subs = [Sub("rows", body_rows, cases=cases, shards=16, exhaustive=full),
             Sub("rows-other-host-zones", lambda rep, case: body_rows(rep, case, "rows-other-host-zones"), cases=zcases, shards=16)]
+    subs.append(Sub("schedule-objects", body_objects, strategy=strat_objects, n=100_000 if full else 2500, shards=8 if full else 2))
     if not full:
         subs.append(Sub("pairs", lambda rep, case: body_rows(rep, case, "pairs"), strategy=strat_pairs, n=20000, shards=4))
     return subs
